@@ -1,11 +1,13 @@
 package props
 
 import (
+	"bufio"
 	"bytes"
 	"crypto/sha1"
 	"encoding/binary"
 	"fmt"
 	"io"
+	"strings"
 
 	proto "github.com/golang/protobuf/proto"
 	"github.com/golang/protobuf/ptypes/wrappers"
@@ -28,7 +30,8 @@ type c06Case struct {
 	Frames  []c06Frame `json:"frames"`
 	Choices []int      `json:"choices,omitempty"` // E3 choice vector of the scripted reader
 	Uniform int        `json:"uniform_chunk,omitempty"`
-	Cut     int        `json:"cut_at,omitempty"` // one forced short read ending exactly at this stream offset
+	Cut     int        `json:"cut_at,omitempty"`   // one forced short read ending exactly at this stream offset
+	Std     string     `json:"std_type,omitempty"` // a standard-library reader / writer type
 }
 
 func init() {
@@ -36,7 +39,7 @@ func init() {
 		ID:    "C06",
 		Level: "model_checking",
 		Rule: "E3 stateless deviation-bounded DFS over a scripted io.Reader: (frames) every frame of the alphabet {generated protobuf message, its versioned wrapper, legacy Marshal/Unmarshal message, its versioned variant} × payload lengths {0,1,2,31,32,33,127,128,129,5000, 2^20+1 (+65535, 65536, 2^20, 2^21+5 thorough)} × versions (every length 0..16, an interior NUL, a leading NUL, trailing spaces): Marshal's count = bytes written = Size = HeaderSize + encoding length, wire bytes = independently built header + encoding, ReadHeader = (version, 32, length) consuming 32 bytes; " +
-			"(histories) every stream of 1..3 frames over a 6-frame sub-alphabet, read back by k+1 Unmarshal calls under every reader chunking with ≤B deviations from 'deliver as much as asked' (deviations: return only j bytes for any j, deliver the last bytes together with io.EOF, one (0,nil) read) plus every uniform chunk size 1..len; three streams in which a frame with a body above 1 MiB is followed by further frames, under whole/uniform chunkings and one forced short read around every frame boundary, body start and power of two; each call must return the next message, its version, n = frame length = bytes actually pulled from the reader, and the extra call (0, cause io.EOF). " +
+			"(histories) every stream of 1..3 frames over a 6-frame sub-alphabet, read back by k+1 Unmarshal calls under every reader chunking with ≤B deviations from 'deliver as much as asked' (deviations: return only j bytes for any j, deliver the last bytes together with io.EOF, one (0,nil) read) plus every uniform chunk size 1..len; every stream also through 11 standard-library reader types and every frame marshalled into 4 standard-library writer types (code may special-case dynamic types); three streams in which a frame with a body above 1 MiB is followed by further frames, under whole/uniform chunkings and one forced short read around every frame boundary, body start and power of two; each call must return the next message, its version, n = frame length = bytes actually pulled from the reader, and the extra call (0, cause io.EOF). " +
 			"states = choice-tree nodes (= executions), transitions = reader answers given. Non-trivial: executions with at least one deviation or a multi-frame stream.",
 		Assumptions: []string{
 			"readers respect the io.Reader contract apart from the listed deviations; at most B simultaneous deviations",
@@ -329,6 +332,67 @@ func c06StreamCut(frames []c06Frame, env *mc.Env, uniform, cut int) (got, want s
 	return got, want, r.reads
 }
 
+// c06StreamStd reads the stream back through a standard-library reader type.
+func c06StreamStd(frames []c06Frame, kind string) (got, want string) {
+	defer func() {
+		if e := recover(); e != nil {
+			got += fmt.Sprint(" panic: ", e)
+		}
+	}()
+	var data []byte
+	for _, f := range frames {
+		data = append(data, c06Wire(f)...)
+	}
+	r := c07StdReader(kind, data)
+	for _, f := range frames {
+		wl := len(c06Wire(f))
+		want += fmt.Sprintf("[n=%d ver=%q err=nil payload=%s]", wl, c06Ver(f), digest(c06Payload(f.Payload)))
+		m := c06Empty(f.Kind)
+		n, ver, err := pbcmpl.Unmarshal(r, m)
+		got += fmt.Sprintf("[n=%d ver=%q err=%s payload=%s]", n, ver, errName(err), digest(c06PayloadOf(m)))
+	}
+	want += "[n=0 err=EOF]"
+	n, _, err := pbcmpl.Unmarshal(r, c06Empty("legacy"))
+	got += fmt.Sprintf("[n=%d err=%s]", n, errName(err))
+	return got, want
+}
+
+// c06MarshalStd marshals into a standard-library writer type.
+func c06MarshalStd(f c06Frame, kind string) (got, want string) {
+	defer func() {
+		if e := recover(); e != nil {
+			got += fmt.Sprint(" panic: ", e)
+		}
+	}()
+	wire := c06Wire(f)
+	want = fmt.Sprintf("n=%d err=nil written=%s", len(wire), digest(wire))
+	var buf bytes.Buffer
+	var sb strings.Builder
+	var w io.Writer
+	var flush func() error
+	switch kind {
+	case "bytes.Buffer":
+		w = &buf
+	case "bufio16":
+		bw := bufio.NewWriterSize(&buf, 16)
+		w, flush = bw, bw.Flush
+	case "bufio4096":
+		bw := bufio.NewWriterSize(&buf, 4096)
+		w, flush = bw, bw.Flush
+	case "strings.Builder":
+		w = &sb
+	}
+	n, err := pbcmpl.Marshal(w, c06Msg(f))
+	if flush != nil {
+		flush()
+	}
+	out := buf.Bytes()
+	if kind == "strings.Builder" {
+		out = []byte(sb.String())
+	}
+	return fmt.Sprintf("n=%d err=%s written=%s", n, errName(err), digest(out)), want
+}
+
 func c06Versions() []string {
 	const base = "1.22.333-rc.4+b56"
 	var out []string
@@ -546,6 +610,30 @@ func c06Run(c *mc.Ctx) {
 		c.Add("transitions", rd)
 		c.Add("large_stream_executions", 1)
 	})
+	// every stream once more through every standard-library reader type, and Marshal into
+	// standard-library writer types (code may special-case dynamic types)
+	c.Par(len(streams), func(si int) {
+		fr := streams[si]
+		for _, rk := range c07StdReaders {
+			g, w := c06StreamStd(fr, rk)
+			if g != w {
+				c.Fail(6<<40|int64(si)<<8, "stream/std", "stream/std", c06Case{Frames: fr, Std: rk}, g, w)
+			}
+			c.Count(1, 1)
+			c.Add("states", 1)
+			c.Add("std_reader_executions", 1)
+		}
+	})
+	c.Par(len(frames), func(fi int) {
+		for _, wk := range []string{"bytes.Buffer", "bufio16", "bufio4096", "strings.Builder"} {
+			g, w := c06MarshalStd(frames[fi], wk)
+			if g != w {
+				c.Fail(7<<40|int64(fi)<<8, "marshal/std", "marshal/std", c06Case{Frames: []c06Frame{frames[fi]}, Std: wk}, g, w)
+			}
+			c.Count(1, 1)
+			c.Add("std_writer_cases", 1)
+		}
+	})
 	c.Add("traces_validated_against_impl", c.Int("states"))
 	// determinism: one recorded execution replayed twice gives identical observations
 	{
@@ -561,6 +649,10 @@ func c06Run(c *mc.Ctx) {
 
 func c06Judge(kind string, cs c06Case) (got, want string) {
 	switch kind {
+	case "stream/std":
+		return c06StreamStd(cs.Frames, cs.Std)
+	case "marshal/std":
+		return c06MarshalStd(cs.Frames[0], cs.Std)
 	case "marshal":
 		return c06MarshalOne(cs.Frames[0])
 	case "stream":
